@@ -77,7 +77,19 @@ def run(prop, tier=None, replay=None):
         rd = tlc.run("MCLifecycle.tla", "Lifecycle_defects.cfg", workers=4, timeout=3000)
         if rd.invariant_violated is None:
             raise MachineryError("non-vacuity run failed: Lifecycle.tla with KnownDefects=TRUE satisfies its invariants")
-        chk.cov["nonvacuity"] = "KnownDefects=TRUE violates %s" % rd.invariant_violated
+        chk.cov["nonvacuity"] = "Lifecycle.tla with KnownDefects=TRUE violates %s" % rd.invariant_violated
+        # the protocol contract as a stand-alone model (the trace specification below drives the same contract with real events)
+        rp = tlc.run("ParseProto.tla", "ParseProto.cfg", workers=4, timeout=3000, coverage=True)
+        if not rp.ok():
+            raise MachineryError("TLC failed on ParseProto.cfg: %s %s" % (rp.invariant_violated, rp.error))
+        chk.add_tlc(rp)
+        never = [a for a in ("Get", "Put", "BEnter", "BExitOk", "BExitFail", "Raise", "Unwind", "FinishOk", "FinishErr") if not rp.coverage.get(a)]
+        if never:
+            raise MachineryError("vacuity: actions of ParseProto.tla never taken: %s" % never)
+        rpd = tlc.run("ParseProto.tla", "ParseProto_defects.cfg", workers=4, timeout=3000)
+        if rpd.invariant_violated != "NothingLeftBehind":
+            raise MachineryError("non-vacuity run failed: ParseProto.tla with KnownDefects=TRUE does not violate NothingLeftBehind")
+        chk.cov["nonvacuity"] += "; ParseProto.tla with KnownDefects=TRUE violates NothingLeftBehind; every action of ParseProto.tla is taken (coverage)"
         hists = sorted((b["hist"] for b in r.beh), key=lambda h: (len(h), json.dumps(h)))
         if tier == "quick":
             short = [h for h in hists if len(h) <= 2]
